@@ -243,20 +243,7 @@ func runC04(w *World, r *Report) {
 
 	// 1. verify before admit
 	r.rule("verify-before-admit", "gossip admission: AddVertexByID lies behind the success edge of leaf.verify(ab.verifier) for the inserted leaf; local creation inserts a vertex built by NewVertex in the same function", 3)
-	if f := w.fx(r, "accountant", "AccountingBook", "addLeafMemorized"); f != nil {
-		for _, s := range f.calls(nAddVertexByID) {
-			_, a := callArgs(s)
-			v := pathOf(a[1])
-			ok := false
-			for _, c := range f.calls(nVerify) {
-				recv, va := callArgs(c)
-				if pathOf(recv) == v && strings.HasSuffix(pathOf(va[0]), ".verifier") && behind(s, passErrNil(c)) {
-					ok = true
-				}
-			}
-			r.check(ok, "verify-before-admit", "addLeafMemorized/AddVertexByID("+v+")", lineOf(w, s), "a gossiped vertex enters the DAG only after it verified", "insertion not dominated by the success edge of verify on the same vertex with the node's verifier")
-		}
-	}
+	gossipVerifyBeforeAdmit(w, r, "verify-before-admit")
 	for _, name := range []string{"CreateLeaf", "CreateGenesis"} {
 		if f := w.fx(r, "accountant", "AccountingBook", name); f != nil {
 			for _, s := range f.calls(nAddVertexByID) {
@@ -270,6 +257,9 @@ func runC04(w *World, r *Report) {
 			}
 		}
 	}
+
+	// a vertex that fails verification leaves nothing behind in the index (the ledger half of "rejected and unchanged")
+	rollbackReservation(w, r, "rejected-vertex-leaves-no-index-entry")
 
 	// 2. chain
 	r.rule("verification-chain", "each link of the verification chain reports success only as the result of the next link applied to the right fields", 5)
@@ -953,5 +943,33 @@ func walletVerifyChain(w *World, r *Report, rule string) {
 		r.check(ok && n > 0, rule, "wallet.Helper.Verify", w.Pos(fn.Pos()),
 			"success only behind sha256(message)==hash, AddressToPubKey(address) ok and ed25519.Verify(key(address), digest, signature) true",
 			fmt.Sprintf("hashEq-edges=%d key-edges=%d sig-edges=%d success-returns=%d", len(eqE), len(keyE), len(sigE), n))
+	}
+}
+
+// gossipVerifyBeforeAdmit: on the gossip / replay admission path the insertion lies behind the success edge of
+// verify on the inserted vertex (shared by C04 and C13: a parked vertex re-enters through the same gate).
+func gossipVerifyBeforeAdmit(w *World, r *Report, rule string) {
+	f := w.fx(r, "accountant", "AccountingBook", "addLeafMemorized")
+	if f == nil {
+		return
+	}
+	sites := deepCalls(f.fn, byName(nAddVertexByID), deepDepth)
+	if len(sites) == 0 {
+		r.bad(rule, "addLeafMemorized/AddVertexByID", w.Pos(f.fn.Pos()), "the admission path inserts into the DAG", "no insertion found")
+	}
+	for _, d := range sites {
+		_, a := callArgs(d.c)
+		v := d.path(a[1])
+		verified := func(fn2 *ssa.Function, res resolver) []Edge {
+			var es []Edge
+			for _, c := range callsTo(fn2, nVerify) {
+				recv, va := callArgs(c)
+				if res(recv) == v && len(va) > 0 && strings.HasSuffix(res(va[0]), ".verifier") {
+					es = append(es, passErrNil(c)...)
+				}
+			}
+			return es
+		}
+		r.check(behindDeepSite(d, verified), rule, "addLeafMemorized/AddVertexByID("+v+")", lineOf(w, d.c), "a gossiped (or replayed) vertex enters the DAG only after it verified", "insertion not dominated by the success edge of verify on the same vertex with the node's verifier")
 	}
 }
